@@ -32,3 +32,36 @@ CLAIMED = {
    note="attributes reported through a handle whose object was removed or replaced are exempt (they describe the old object); mtime/atime/ctime, "
         "uid/gid and nlink are not compared"),
 }
+
+CLAIMED.update({
+ "C08": dict(cat=MC, engine="Core", design="5/C08",
+   technique="TLA+ spec ReadOnly (guard order per procedure, TLC exhaustive) + step validation of recorded histories with every backend call classified (CoreTrace ROBad)",
+   text="ReadOnly.tla models a request of any procedure with well-formed / truncated / garbage arguments against a policy that may be switched "
+        "between requests; TLC shows no modification, no OK from a mutating procedure and no MODIFY/EXTEND/DELETE grant while read-only, and finds the "
+        "violation when the guard is tested after decoding. CoreTrace checks the same clauses on every recorded request of read-only histories: "
+        "the recording backend counts write-mode opens, writes, truncation, create, remove, rename, mkdir, symlink, chmod, chown, chtimes.",
+   note="the switch is exercised between requests (atomicity of the switch with respect to in-flight requests is C16); arguments are mangled by "
+        "truncation at 4-byte boundaries, random bytes and single bit flips"),
+ "C11": dict(cat=MC, engine="Core", design="5/C11",
+   technique="TLA+ spec Ownership (squash x credential x sattr3 subsets, TLC exhaustive) + step validation of recorded chown calls and recorded owners (CoreTrace OwnBad)",
+   text="Ownership.tla enumerates CREATE/MKDIR/SYMLINK/SETATTR by every caller identity under every squash mode with every subset of sattr3 uid/gid "
+        "and checks that a caller whose effective uid is not 0 never makes another owner recorded and that new objects get the effective identity; "
+        "CoreTrace checks, on recorded histories over the vfs backend (new inodes start 0:0, so a missing chown is visible), the owner of every "
+        "object after every step and the arguments of every chown/lchown call against CoreOps!Squash.",
+   note="the effective identity is computed by the spec's own Squash operator (C10 decides that operator against the code); a root SETATTR that sets "
+        "only one of uid/gid is not exercised (outside the property)"),
+ "C22": dict(cat=MC, engine="Core", design="5/C22",
+   technique="TLA+ spec Durability (write path step by step, Crash at any point, TLC exhaustive) + crash injection at every backend operation of recorded histories (CoreTrace CrashBad)",
+   text="Durability.tla executes WriteWithContext's backend operations one at a time with a Crash action enabled between any two; TLC shows every "
+        "acknowledged byte is durable after a crash and finds the loss when the sync is absent (F14). The harness re-runs each WRITE/COMMIT history "
+        "with the vfs backend crashing at backend operation k for every k; CoreTrace keeps the acknowledged contents as ghost state and compares "
+        "them with the durable copy logged at the crash. The write verifier must be constant within an instance and new for each of 100+ instances.",
+   note="the vfs backend's durability model: file data is volatile until Sync on an open file, the namespace is journaled; a byte range of the "
+        "request in flight at the crash may hold old or new data"),
+ "C25": dict(cat=MC, engine="Core", design="5/C25",
+   technique="TLA+ spec FileData with MaxFS (TLC exhaustive, invariant Bounded / RefusedUnchanged) + step validation of recorded histories around the limit (CoreTrace)",
+   text="FileData.tla with MaxFS in {1,3,5} shows the size never exceeds the limit and a refused request changes nothing; CoreTrace checks recorded "
+        "WRITE and SETATTR(size) at limit-1/limit/limit+1 (limit set at construction or switched on and changed at run time): over-limit requests "
+        "must reply NFS3ERR_FBIG and leave the file unchanged, the others must behave exactly as without a limit.",
+   note="limits 1, 5, 10, 33 (+7 after a second update); the limit applies to offset + length of the request as sent"),
+})
